@@ -30,7 +30,11 @@ func (c *brotliDecompressor) Read(bytes []byte) (int, error) {
 	return c.reader.Read(bytes)
 }
 func (c *brotliDecompressor) Reset(rdr io.Reader) error {
-	return c.reader.Reset(rdr)
+	// brotli's Reader.Reset keeps input that was buffered but not consumed
+	// (for example when the previous stream failed to decode), and would
+	// decode it ahead of the new source. So use a new Reader for each source.
+	c.reader = brotli.NewReader(rdr)
+	return nil
 }
 func (c *brotliDecompressor) Close() error {
 	// brotli's Reader does not expose a Close function
